@@ -98,12 +98,12 @@ Definition show_node (o : option node) : string :=
   | Some (NFile c g) => show_obj [("f", show_str c); ("gen", show_N g)]
   | Some (NBin g) => show_obj [("bin", show_N g)]
   | Some (NLink t) => show_obj [("l", show_N t)]
-  | Some NDir => show_string "dir"
+  | Some (NDir _) => show_string "dir"
   end.
 
 Definition show_errkind (k : errkind) : string :=
   show_string (match k with ErrBadFilename => "badfilename" | ErrRead => "read" | ErrModify => "modify"
-                          | ErrEOF => "eof" | ErrSymlink => "symlink" end).
+                          | ErrEOF => "eof" | ErrSymlink => "symlink" | ErrDepth => "depth" end).
 
 Definition show_outcome (o : outcome) : string :=
   match o with
